@@ -48,6 +48,8 @@ type Contract struct {
 	Assumes   []Clause // extra assumptions at entry (listed in evidence)
 	Uses      []string // ghost lemma functions whose contracts are available as quantified facts
 	Decreases []Clause // termination measure for recursive functions
+	ParamInv  []Clause // `invariant e`: required at entry, ensured at exit, maintained by every loop
+	Schema    bool     // instantiated from a schema: clauses that do not resolve for this function are dropped
 	File      string
 	Line      int
 }
@@ -69,7 +71,7 @@ type SpecFunc struct {
 
 var clauseKeywords = map[string]bool{"func": true, "requires": true, "ensures": true, "modifies": true,
 	"loop": true, "pure": true, "trusted": true, "may_panic": true, "nullable": true, "dyn": true,
-	"callsite": true, "lemma": true, "assume": true, "pkgrule": true, "uses": true, "decreases": true}
+	"callsite": true, "lemma": true, "assume": true, "pkgrule": true, "uses": true, "decreases": true, "invariant": true}
 
 // rewriteImplies turns `a ==> b` into `implies(a, b)` (lowest precedence, right associative).
 func rewriteImplies(s string) string {
@@ -315,6 +317,14 @@ func parseContractText(lines []string, lineNos []int, file, pkgPath string) (*Co
 			default:
 				return fmt.Errorf("%s:%d: unknown loop clause %q", file, p.line, f[1])
 			}
+		case "invariant":
+			c, err := parseClause(text, file, p.line)
+			if err != nil {
+				return err
+			}
+			cur.ParamInv = append(cur.ParamInv, c)
+			cur.Requires = append(cur.Requires, c)
+			cur.Ensures = append(cur.Ensures, c)
 		case "uses":
 			for _, n := range strings.Fields(strings.ReplaceAll(text, ",", " ")) {
 				cur.Uses = append(cur.Uses, n)
